@@ -69,6 +69,12 @@ class NsChild:
 class Other:
     x: Optional[int] = field(default=None, metadata={"type": "Element"})
 ''',
+    "Wrap": '''
+@dataclass
+class Wrap:
+    c: Optional[Child] = field(default=None, metadata={"type": "Element"})
+    t: Optional[str] = field(default=None, metadata={"type": "Attribute"})
+''',
     "TextChild": '''
 @dataclass
 class TextChild:
@@ -89,8 +95,8 @@ INNER_HELPERS = {
         BLUE = "blue"
 ''',
 }
-HELPER_DEPS = {"Derived": ["Child"]}
-HELPER_ORDER = ["Color", "Num", "QEnum", "Child", "Derived", "NsChild", "Other", "TextChild"]
+HELPER_DEPS = {"Derived": ["Child"], "Wrap": ["Child"]}
+HELPER_ORDER = ["Color", "Num", "QEnum", "Child", "Derived", "NsChild", "Other", "Wrap", "TextChild"]
 
 # ---------------------------------------------------------------------------------------
 # scalar type table: key -> (annotation, value expressions simplest first, format, helpers, tags)
@@ -143,6 +149,9 @@ class FieldSpec:
 
     def source(self, kw_only: bool) -> str:
         meta = "{" + ", ".join(f"{k!r}: {v}" for k, v in self.meta.items()) + "}"
+        init = "init=False, " if "init-false" in self.tags else ""
+        if init:
+            return f"    {self.name}: {self.ann} = field({init}default={self.default}, metadata={meta})"
         if self.default is None:
             return f"    {self.name}: {self.ann} = field(metadata={meta})"
         if self.default.startswith("factory:"):
@@ -218,6 +227,11 @@ class ModelSpec:
             out.append(INNER_HELPERS[hname].rstrip("\n"))
         for f in fields:
             out.append(f.source(True))
+        post = [f for f in self.fields if "postinit" in f.tags]
+        if post and not self.frozen:
+            out.append("    def __post_init__(self):")
+            for f in post:
+                out.append(f"        self.{f.name} = 7")
         if not fields and not metas:
             out.append("    pass")
         return "\n".join(out) + "\n"
@@ -253,7 +267,7 @@ def gen_field(ch: Chooser, i: int, frozen: bool, cats: list[str], scalar_keys: l
             meta["format"] = repr(sc["format"])
         nillable = ch.flag(f"{name}.nillable")
         ns = ch.pick([None, "", NS_O], f"{name}.ns")
-        rename = ch.flag(f"{name}.rename")
+        rename = ch.pick([False, True, "same"], f"{name}.rename")
         tokens = ch.flag(f"{name}.tokens") if arity == "list" else False
         toklist = ch.flag(f"{name}.tokenlist") if tokens else False
         wrapper = ch.flag(f"{name}.wrapper") if arity == "list" and not tokens else False
@@ -263,7 +277,10 @@ def gen_field(ch: Chooser, i: int, frozen: bool, cats: list[str], scalar_keys: l
             tags.add("nillable")
         if ns is not None:
             meta["namespace"] = repr(ns)
-        if rename:
+        if rename == "same":
+            meta["name"] = "'same'"
+            tags.add("samename")
+        elif rename:
             meta["name"] = repr(f"el-{i}.x")
         if seq:
             meta["sequence"] = "1"
@@ -383,7 +400,7 @@ def gen_field(ch: Chooser, i: int, frozen: bool, cats: list[str], scalar_keys: l
             tags.add("wrapper")
         return FieldSpec(name, L % cls, lf, meta, _listvals([vals[0], vals[1 if nillable else 2], vals[-1]], frozen), cat, helpers, tags | {"list"})
     if cat == "union":
-        variant = ch.pick(["int-str", "models", "list-int-str", "float-bool", "model-str"], f"{name}.variant")
+        variant = ch.pick(["int-str", "models", "list-int-str", "float-bool", "model-str", "models-nested"], f"{name}.variant")
         meta = {"type": "'Element'"}
         tags = {"union"}
         if variant == "int-str":
@@ -395,6 +412,9 @@ def gen_field(ch: Chooser, i: int, frozen: bool, cats: list[str], scalar_keys: l
             return FieldSpec(name, "Optional[Union[bool, float]]", "None", meta, ["True", "None", "1.5", "False", "0.5"], cat, [], tags)
         if variant == "models":
             return FieldSpec(name, "Optional[Union[Child, Other]]", "None", meta, ["Child(v='a')", "None", "Other(x=1)", "Child(a=2)"], cat, ["Child", "Other"], tags | {"model", "clazz-union"})
+        if variant == "models-nested":
+            return FieldSpec(name, "Optional[Union[Wrap, Other]]", "None", meta, ["Wrap(c=Child(v='a', a=3))", "None", "Other(x=1)", "Wrap(c=Child(a=4), t='z')"], cat,
+                             ["Child", "Wrap", "Other"], tags | {"model", "clazz-union"})
         return FieldSpec(name, "Optional[Union[Other, str]]", "None", meta, ["'a'", "None", "Other(x=1)"], cat, ["Other"], tags | {"model", "clazz-union"})
     if cat == "anytype":
         arity = ch.pick(["optional", "list"], f"{name}.arity")
@@ -404,7 +424,8 @@ def gen_field(ch: Chooser, i: int, frozen: bool, cats: list[str], scalar_keys: l
         if nillable:
             meta["nillable"] = "True"
             tags.add("nillable")
-        vals = ["'a'", "1", "True", "1.5", "Decimal('1.50')", "XmlDate(2020, 1, 2)", "QName('{urn:q}b')", "2**63", "XmlPeriod('--02')", "XmlDuration('P1D')"]
+        vals = ["'a'", "1", "True", "1.5", "Decimal('1.50')", "XmlDate(2020, 1, 2)", "QName('{urn:q}b')", "2**63", "XmlPeriod('--02')", "XmlDuration('P1D')",
+                "0", "False", "0.0", "Decimal('0')"]
         if arity == "optional":
             return FieldSpec(name, "Optional[object]", "None", meta, vals[:1] + ["None"] + vals[1:], cat, [], tags | {"optional"})
         return FieldSpec(name, L % "object", lf, meta, _listvals(vals, frozen) + [f"[{vals[4]}, {vals[5]}, {vals[6]}]" if not frozen else f"({vals[4]}, {vals[5]}, {vals[6]})"], cat, [], tags | {"list"})
@@ -481,6 +502,17 @@ def gen_field(ch: Chooser, i: int, frozen: bool, cats: list[str], scalar_keys: l
         else:
             vals = ["{'k': 'v'}", "{}", "{'k': '', 'j': 'a&\"b'}", "{'k': ' a b '}"]
         return FieldSpec(name, "Dict[str, str]", "factory:dict", meta, vals, cat, [], {"attributes", "ans:" + str(ns)})
+    if cat == "special":
+        # constructs that matter to the code serializer: fields excluded from __init__ and default factories
+        # that return something non-empty
+        variant = ch.pick(["list-default-factory", "init-false-attr", "init-false-postinit", "dict-default-factory"], f"{name}.variant")
+        if variant == "list-default-factory":
+            return FieldSpec(name, "List[str]", "factory:lambda: ['d1', 'd2']", {"type": "'Element'"}, ["['a']", "[]", "['d1', 'd2']", "['d1']"], cat, [], {"special", "list"})
+        if variant == "dict-default-factory":
+            return FieldSpec(name, "Dict[str, str]", "factory:lambda: {'k': 'v'}", {"type": "'Attributes'"}, ["{'a': 'b'}", "{}", "{'k': 'v'}"], cat, [], {"special"})
+        if variant == "init-false-attr":
+            return FieldSpec(name, "str", "'fixed'", {"type": "'Attribute'"}, ["<skip>"], cat, [], {"special", "init-false"})
+        return FieldSpec(name, "Optional[int]", "None", {"type": "'Element'"}, ["<skip>"], cat, [], {"special", "init-false", "postinit"})
     raise HarnessError(cat)
 
 
@@ -513,6 +545,8 @@ def validate(spec: ModelSpec) -> None:
     """By-construction exclusions of models that the documentation does not support (each with
     its reason).  Anything that passes must build; a build error is then a violation."""
     cats = [f.cat for f in spec.fields]
+    if any("postinit" in f.tags for f in spec.fields) and (spec.frozen or spec.base_split):
+        raise Prune("__post_init__ assignment needs a mutable, unsplit class")
     if spec.base_split and any("inner" in f.tags for f in spec.fields):
         raise Prune("inner classes are declared in the class that uses them (no base split)")
     if cats.count("text") > 1:
@@ -531,6 +565,12 @@ def validate(spec: ModelSpec) -> None:
     if mixed and len(spec.fields) > 1 and any(f.cat not in ("attribute", "attributes", "wildcard") for f in spec.fields):
         raise Prune("mixed wildcard absorbs all child content; sibling element fields are not addressable")
     # same element qname in two fields / attribute collisions are ambiguous models
+    same = [f for f in spec.fields if "samename" in f.tags]
+    if same:
+        if any("list" in f.tags or "tokens" in f.tags or "wrapper" in f.tags for f in same):
+            raise Prune("repeated element name is modelled with single-occurrence fields (a list field absorbs every occurrence)")
+        if len({repr(f.meta.get("namespace")) for f in same}) > 1:
+            pass
     elems = [f for f in spec.fields if f.cat == "elements"]
     if len(elems) > 1:
         raise Prune("two compound fields with the same choice names")
@@ -583,11 +623,11 @@ class Model:
         return eval(expr, self.module.__dict__)
 
     def instance(self, exprs: list[str]):
-        kw = {f.name: self.ev(e) for f, e in zip(self.spec.fields, exprs)}
+        kw = {f.name: self.ev(e) for f, e in zip(self.spec.fields, exprs) if e != "<skip>"}
         return self.root(**kw)
 
     def instance_source(self, exprs: list[str]) -> str:
-        return "Root(" + ", ".join(f"{f.name}={e}" for f, e in zip(self.spec.fields, exprs)) + ")"
+        return "Root(" + ", ".join(f"{f.name}={e}" for f, e in zip(self.spec.fields, exprs) if e != "<skip>") + ")"
 
 
 def wild_values(spec: ModelSpec, f: FieldSpec) -> list[str]:
